@@ -226,6 +226,13 @@ def run(ctx):
         if data is not None and len(s) < len(data) and len(s) >= 13:
             if ret != len(data) or got != data:
                 return False, "a valid block shorter than its plaintext did not decode to the plaintext"
+            # the generated valid blocks must be blocks lz4_complete speaks about: the reference decodes them to the plaintext and
+            # they end with at least five literals
+            sp, so = spec_of.get(line, (None, None))
+            if sp is not None:
+                fin = sp.split("final=")[1].split()[0] if "final=" in sp else "-"
+                if so != list(data) or not fin.isdigit() or int(fin) < 5:
+                    return False, "a generated valid block does not meet the hypotheses of lz4_complete (reference decoding = plaintext, at least five final literals): the theorem would say nothing about it"
         return True, ""
 
     def classify(l, o):
